@@ -61,6 +61,9 @@ pub trait Walker: Visitor {
         self.visit_statement(stmt);
         match stmt {
             Statement::Let(def) => {
+                if let Some(ref mut constraint) = def.constraint {
+                    self.walk_expression(constraint);
+                }
                 self.walk_expression(&mut def.value);
             }
             Statement::Constraint(def) => {
@@ -80,7 +83,10 @@ pub trait Walker: Visitor {
     }
 
     fn walk_fieldset(&mut self, fs: &mut FieldList) {
-        for (_, _constraint, expr) in fs.iter_mut() {
+        for (_, constraint, expr) in fs.iter_mut() {
+            if let Some(constraint) = constraint {
+                self.walk_expression(constraint);
+            }
             self.walk_expression(expr);
         }
     }
@@ -111,13 +117,16 @@ pub trait Walker: Visitor {
             },
             Expression::FuncOp(def) => match def {
                 FuncOpDef::Reduce(def) => {
+                    self.walk_expression(def.func.as_mut());
                     self.walk_expression(def.target.as_mut());
                     self.walk_expression(def.acc.as_mut())
                 }
                 FuncOpDef::Map(def) => {
+                    self.walk_expression(def.func.as_mut());
                     self.walk_expression(def.target.as_mut());
                 }
                 FuncOpDef::Filter(def) => {
+                    self.walk_expression(def.func.as_mut());
                     self.walk_expression(def.target.as_mut());
                 }
             },
@@ -128,11 +137,24 @@ pub trait Walker: Visitor {
             Expression::Grouped(expr, _) => {
                 self.walk_expression(expr);
             }
-            Expression::Func(def) => self.walk_expression(def.fields.as_mut()),
+            Expression::Func(def) => {
+                for (_, constraint) in def.argdefs.iter_mut() {
+                    if let Some(constraint) = constraint {
+                        self.walk_expression(constraint);
+                    }
+                }
+                self.walk_expression(def.fields.as_mut());
+            }
             Expression::Module(def) => {
                 self.walk_fieldset(&mut def.arg_set);
                 for stmt in def.statements.iter_mut() {
                     self.walk_statement(stmt);
+                }
+                if let Some(ref mut expr) = def.out_expr {
+                    self.walk_expression(expr.as_mut());
+                }
+                if let Some(ref mut expr) = def.out_constraint {
+                    self.walk_expression(expr.as_mut());
                 }
             }
             Expression::Range(def) => {
@@ -168,6 +190,7 @@ pub trait Walker: Visitor {
             }
             Expression::Fail(f) => {
                 self.visit_fail(f);
+                self.walk_expression(f.message.as_mut());
                 self.leave_fail();
             }
             Expression::Not(def) => {
